@@ -293,6 +293,7 @@ type SX struct {
 	ForceStep func(*types.Func) bool // calls recorded as effect steps even when pure (ordering matters to the rule)
 	// InlineStaticSelf: also inline exported methods of the container types when they are called on the bare receiver variable
 	InlineStaticSelf bool
+	KeepUnboxed      bool // the rule reads the wrapper tests themselves (TypeOf, Sort): no atom algebra
 	addrTaken        map[types.Object]bool
 	loopID           int
 	loopLabel        map[ast.Stmt]string   // labels of labelled loops
@@ -1011,7 +1012,19 @@ func (x *SX) lvalue(e ast.Expr, st *sxState) Term {
 	case *ast.IndexExpr:
 		return TIndex{X: x.eval(v.X, st), I: x.eval(v.Index, st), Epoch: -1}
 	case *ast.StarExpr:
-		return TDeref{X: x.eval(v.X, st), Epoch: -1}
+		t := x.eval(v.X, st)
+		if a, ok := t.(TAddr); ok {
+			// *&loc = …: a store into that location
+			switch loc := a.X.(type) {
+			case TIndex:
+				loc.Epoch = -1
+				return loc
+			case TSel:
+				loc.Epoch = -1
+				return loc
+			}
+		}
+		return TDeref{X: t, Epoch: -1}
 	}
 	return x.eval(e, st)
 }
@@ -2231,6 +2244,17 @@ func (x *SX) evalFork(e ast.Expr, st *sxState) []evalOut {
 					if cur, ok := st.env[tv.Obj]; ok {
 						return cur
 					}
+				}
+			}
+			// *&loc: a load of that location now (the element or field the pointer was taken of)
+			if a, ok := t.(TAddr); ok {
+				switch loc := a.X.(type) {
+				case TIndex:
+					loc.Epoch = st.heap
+					return loc
+				case TSel:
+					loc.Epoch = st.heap
+					return loc
 				}
 			}
 			return TDeref{X: t, Epoch: st.heap}
